@@ -415,7 +415,7 @@ def unit_buf_twin(args):
 # ------------------------------------------------------------------ C07 scenarios
 
 ROLES = ["modified", "readonly", "untouched"]
-EXTS = ["before", "after", "never"]
+EXTS = ["before", "after", "never", "after-old"]
 
 
 def run_c07(ns, fam, is_dict, ctx_kind, assignment, order, cap):
@@ -484,6 +484,12 @@ def run_c07(ns, fam, is_dict, ctx_kind, assignment, order, cap):
                 if ext == "after":
                     w.write(i, val(i, "ext-after"))
                     expected_disk[i] = val(i, "ext-after")
+                    if role == "modified":
+                        conflicts.add(i)
+                elif ext == "after-old":
+                    # an outside write that keeps the size and leaves an OLDER timestamp
+                    w.write(i, val(i, "tini"), older=True)
+                    expected_disk[i] = val(i, "tini")
                     if role == "modified":
                         conflicts.add(i)
             # with a tiny capacity a modified file may have been force-flushed before the outside
